@@ -11,7 +11,7 @@ RULE = ("random documented-valid calls of anneal_qubo/quso/pubo/puso: model as d
         "initial_state or none; both orders; seed None/0/5/2^31-1; num_anneals in {-1,0,1,3,7}. The extension is "
         "rebuilt from the working tree with the H2 hook. Non-trivial = model with >= 2 variables, >= 2 terms and "
         "num_anneals >= 1; distinct = digest of (function, type, terms, kwargs)"
-        " Also: plain dicts with explicit zero entries, initial states spelled as list or tuple (integer-labelled Matrix inputs), user mappings listed in shuffled order, coefficients needing more than 24 significant bits (H2 must report zero deviation), kwargs and initial states spelled as numpy scalars, constrained PCBO/PCSO inputs with slack ancillas, one-shot iterator schedules, scribbling on returned states then the same call again, a second anneal after in-place edits (also with a complete initial_state; states name nothing outside model.variables).")
+        " Also: plain dicts with explicit zero entries and long raw spellings (repeated boolean labels, inserted spin pairs), quadratic models held by higher-degree types whose degree bookkeeping still says 3, the same object annealed again after set_mapping permuted its enumeration, initial states spelled as list or tuple (integer-labelled Matrix inputs), user mappings listed in shuffled order, coefficients needing more than 24 significant bits (H2 must report zero deviation), kwargs and initial states spelled as numpy scalars, constrained PCBO/PCSO inputs with slack ancillas, one-shot iterator schedules, scribbling on returned states then the same call again, a second anneal after in-place edits (also with a complete initial_state; states name nothing outside model.variables).")
 TIERS = {"quick": {"shards": 8, "cases": 4000}, "thorough": {"shards": 16, "cases": 10000}}
 FLOOR_BASE = {"quick": 300, "thorough": 10000}    # case counts the floors below were calibrated for; the launcher scales them
 
@@ -20,7 +20,7 @@ def FLOORS(tier):
     q = tier == "quick"
     f = {"result-contract-checks": 2500 if q else 10 ** 5, "empty-or-constant-model": 60, "matrix-with-gaps": 100,
          "with-initial_state": 600, "num_anneals<=0": 300, "hook-dE-checks": 10 ** 5, "hook-exactness-verdicts": 2000, "schedule:one-shot-iterator": 30, "second-anneal-after-in-place-edit": 150,
-         "second-anneal:cancel": 20, "second-anneal:set0": 20, "second-anneal:with-initial_state": 15, "returned-state-scribbled": 300, "kwargs-spelled-as-numpy-scalars": 200, "constrained-model-with-ancillas": 40, "dict-with-explicit-zero-entries": 60, "initial_state-as-sequence": 100,
+         "second-anneal:cancel": 20, "second-anneal:set0": 20, "second-anneal:with-initial_state": 15, "returned-state-scribbled": 300, "kwargs-spelled-as-numpy-scalars": 200, "constrained-model-with-ancillas": 40, "dict-with-explicit-zero-entries": 60, "initial_state-as-sequence": 100, "quadratic-model-with-stale-degree-3": 70, "dict-with-long-raw-spellings": 50, "second-anneal:after-relabelling": 180,
          "user-mapping:set_mapping": 40, "user-mapping:set_reverse_mapping": 40, "coefficients:wide-big": 100, "coefficients:wide-small": 60}
     for fn in A.FUNCS:
         for t in A.ACCEPT[fn]:
@@ -63,6 +63,10 @@ def case(ctx, rng, idx):
         ctx.cat("constrained-model-with-ancillas" if getattr(cfg["model"], "num_ancillas", 0) else "constrained-model")
     if cfg["numpy_spelled"]:
         ctx.cat("kwargs-spelled-as-numpy-scalars")
+    if cfg["stale_degree"]:
+        ctx.cat("quadratic-model-with-stale-degree-3")
+    if cfg["long_spelling"]:
+        ctx.cat("dict-with-long-raw-spellings")
     if cfg["zero_entry"]:
         ctx.cat("dict-with-explicit-zero-entries")
     if cfg["seq_state"]:
@@ -92,8 +96,22 @@ def case(ctx, rng, idx):
         if not ok or not A.check_results(ctx, cfg, res2, tag="after-scribble:"):
             return
         res = res2
-    # second look: the same model object is edited in place (zero-sets included) and annealed again
     m = cfg["model"]
+    # second look: the enumeration of the same object is permuted (no term is touched) and it is annealed again
+    if cfg["type"] != "dict" and not cfg["matrix"] and hasattr(m, "set_mapping") and len(m.mapping) >= 2 \
+            and "_schedule_values" not in cfg["kw"] and rng.random() < 0.25:
+        mp_ = m.mapping
+        vs_, idx_ = list(mp_), list(mp_.values())
+        rng.shuffle(idx_)
+        if rng.random() < 0.5:
+            m.set_mapping(dict(zip(vs_, idx_)))
+        else:
+            m.set_reverse_mapping(dict(zip(idx_, vs_)))
+        ctx.cat("second-anneal:after-relabelling")
+        ok, res2 = ctx.call(cfg["fn"], fn, m, _w=dict(w, note="annealed, relabelled with set_mapping, annealed again", mapping_now=m.mapping), **callkw)
+        if not ok or not A.check_results(ctx, cfg, res2, tag="after-relabelling:"):
+            return
+    # second look: the same model object is edited in place (zero-sets included) and annealed again
     if cfg["type"] != "dict" and len(m) and "initial_state" not in callkw and "_schedule_values" not in cfg["kw"] and rng.random() < 0.3:
         edit = rng.choice(["cancel", "set0", "scale", "add"])
         ks = [k for k in m if k]
